@@ -56,6 +56,9 @@ type ginst struct {
 func (e *env) recOpt(tag string) mux.Option {
 	return mux.WithRecovery(func(w http.ResponseWriter, v any) {
 		_, val := describePanic(v)
+		if e.cur == nil {
+			return
+		}
 		e.cur.recovered = append(e.cur.recovered, tag+":"+val)
 		w.WriteHeader(500)
 	})
